@@ -51,9 +51,9 @@ class _Msg:
         return self.b
 
 
-def _pair(ctx, frag):
+def _pair(ctx, frag, timeouts=0):
     from paramiko.packet import Packetizer
-    wire = P.Wire(ctx, frag)
+    wire = P.Wire(ctx, frag, timeouts)
     tx, rx = Packetizer(wire), Packetizer(wire)
     for p in (tx, rx):
         p._initial_kex_done = True
@@ -77,14 +77,25 @@ def _install(ctx, tx, rx, mode, bs, macsize, gen, gcmlog):
     rx.set_inbound_cipher(P.XorStream(ks), bs, "sha", macsize, key, etm=(mode == "etm"))
 
 
-def stream_case(mode, nmsgs, maxlen, frag=False, compress=False, macs=(12, 20, 32, 64), lens=None):
+def stream_case(mode, nmsgs, maxlen, frag=False, compress=False, macs=(12, 20, 32, 64), lens=None, timeouts=0, bss=(8, 16)):
     def fn(ctx):
-        from paramiko.packet import Packetizer
+        from paramiko.packet import Packetizer, NeedRekeyException
+
+        def read(rx):
+            # what Transport.run does: a read interrupted because a re-key is due is simply tried again
+            for _ in range(timeouts + 2):
+                try:
+                    return rx.read_message()
+                except NeedRekeyException:
+                    ctx.reach("read-interrupted-because-a-rekey-is-due")
+            raise AssertionError("read_message kept asking for a re-key")
         ctx._n = 0
         ctx.fresh = lambda: (setattr(ctx, "_n", ctx._n + 1), ctx._n)[1]
-        bs = ctx.choice("block_size", [8, 16]) if mode != "none" else 8
+        bs = ctx.choice("block_size", list(bss)) if mode != "none" else 8
         macsize = ctx.choice("mac_size", list(macs)) if mode in ("classic", "etm") else 0
-        wire, tx, rx = _pair(ctx, frag)
+        wire, tx, rx = _pair(ctx, frag, timeouts)
+        if timeouts and ctx.flag("a-rekey-is-due-on-the-receiving-side"):
+            rx._Packetizer__need_rekey = True
         mac = P.MacRecorder(ctx)
         gcmlog = []
         seq0 = ctx.int("start_seqno", 0, 2 ** 32 - 1)
@@ -109,11 +120,11 @@ def stream_case(mode, nmsgs, maxlen, frag=False, compress=False, macs=(12, 20, 3
                 sent.append(pl)
                 tx.send_message(_Msg(pl))
                 if not batch:
-                    cmd, m = rx.read_message()
+                    cmd, m = read(rx)
                     got.append((cmd, m.asbytes()))
             if batch:
                 for i in range(nmsgs):
-                    cmd, m = rx.read_message()
+                    cmd, m = read(rx)
                     got.append((cmd, m.asbytes()))
             for i in range(nmsgs):
                 ctx.prove(lift(got[i][0]) == sent[i][0], "message-types-arrive-in-order")
@@ -121,13 +132,15 @@ def stream_case(mode, nmsgs, maxlen, frag=False, compress=False, macs=(12, 20, 3
             ctx.prove(len(wire.buf) == 0, "nothing-left-on-the-wire(no-loss,duplication-or-merging)")
             ctx.prove(lift(tx._Packetizer__sequence_number_out) == rx._Packetizer__sequence_number_in,
                       "sequence-counters-stay-in-step")
-    name = "%s-%dmsgs%s%s" % (mode, nmsgs, "-fragmented" if frag else "", "-compressed" if compress else "")
+    name = "%s-%dmsgs%s%s%s" % (mode, nmsgs, "-fragmented" if frag else "", "-compressed" if compress else "", "-timeouts" if timeouts else "")
     return Case(name, fn, ["message-types-arrive-in-order", "payload-bytes-arrive-unchanged",
                            "nothing-left-on-the-wire(no-loss,duplication-or-merging)", "sequence-counters-stay-in-step"],
                 {"mode": mode, "messages": nmsgs, "payload": ("1..%d symbolic bytes" % maxlen) if maxlen else
-                 ("lengths around the padding boundaries" if lens else "1..2*block+2 symbolic bytes"), "block size": [8, 16],
-                 "mac size": [12, 20, 32, 64], "start seqno": "0..2^32-1", "fragmentation": "each of the first five recv() calls returns n, n/2 or 1 bytes" if frag else "none",
-                 "compression": compress, "key switch": "before any message"}, max_paths=60000, wall_s=240)
+                 ("lengths around the padding boundaries" if lens else "1..2*block+2 symbolic bytes"), "block size": list(bss),
+                 "mac size": list(macs), "start seqno": "0..2^32-1", "fragmentation": "each of the first five recv() calls returns n, n/2 or 1 bytes" if frag else "none",
+                 "compression": compress, "key switch": "before any message",
+                 "socket timeouts": ("each of the first %d recv() calls may time out, with or without a re-key due" % timeouts) if timeouts else "none"},
+                max_paths=60000, wall_s=240)
 
 
 def cases(tier):
@@ -139,6 +152,8 @@ def cases(tier):
         cs.append(stream_case(mode, 2, None, macs=(20,), lens=few))
     cs.append(stream_case("classic", 1, 3, frag=True, macs=(12,)))
     cs.append(stream_case("aead", 1, 3, frag=True))
+    cs.append(stream_case("classic", 1, 1, frag=True, macs=(12,), timeouts=3, bss=(8,)))
+    cs.append(stream_case("etm", 1, 1, frag=True, macs=(12,), timeouts=3, bss=(8,)))
     cs.append(stream_case("etm", 2, None, compress=True, macs=(32,), lens=lambda bs: [1, bs - 4]))
     if not q:
         cs += [stream_case(m, 3, None, macs=(20,), lens=lambda bs: [1, bs - 4, bs + 3]) for m in MODES]
